@@ -401,8 +401,57 @@ def blamed(cause, declared) -> Any:
     return None
 
 
+STRMOD_PARENT_SRC = """from __future__ import annotations
+from typing import List, Optional, Set, Union
+from metador_core.schema.core import MetadataSchema
+
+
+class SmParent(MetadataSchema):
+{body}
+"""
+
+STRMOD_CHILD_SRC = """from __future__ import annotations
+from typing import List, Optional, Set, Union
+from {pmod} import SmParent
+
+
+class SmChild(SmParent):
+{body}
+"""
+
+_STRMOD_N = [0]
+
+
+def build_strmod_classes(spec):
+    """Parent and child live in two synthetic modules with postponed (string) annotations; the child re-declares
+    the field with textually identical annotation, the shared name is bound per module."""
+    import sys
+    import types
+    from metador_core.schema.core import check_types
+    _env()
+    sm = spec["strmod"]
+    _STRMOD_N[0] += 1
+    tag = f"c13sm_{spec['idx']}_{_STRMOD_N[0]}"
+    pm, cm = types.ModuleType(tag + "_p"), types.ModuleType(tag + "_c")
+    sys.modules[pm.__name__], sys.modules[cm.__name__] = pm, cm
+    pm.__dict__[sm["name"]] = to_py(sm["tp"])
+    cm.__dict__[sm["name"]] = to_py(sm["tc"])
+    line = f"    fld: {sm['text']}"
+    exec(STRMOD_PARENT_SRC.format(body=line if spec["p_fields"] else "    pass"), pm.__dict__)
+    P = pm.SmParent
+    check_types(P)
+    try:
+        body = (line + (f" = {sm['default']}" if sm.get("default") else "")) if spec["c_own"] else "    pass"
+        exec(STRMOD_CHILD_SRC.format(pmod=pm.__name__, body=body), cm.__dict__)
+        C = cm.SmChild
+        check_types(C)
+    except (TypeError, ValueError) as e:
+        return "refused", P, None, f"{type(e).__name__}: {str(e)[:160]}"
+    return "ok", P, C, ""
+
+
 def impl_class_case(spec) -> Dict[str, Any]:
-    status, P, C, why = build_classes(spec)
+    status, P, C, why = build_strmod_classes(spec) if spec.get("strmod") else build_classes(spec)
     rows = []
     for obj in spec["objects"]:
         raw = json.dumps(obj)
@@ -973,6 +1022,47 @@ def shrink_chain_case(spec, obj):
     return cur
 
 
+# string annotations: one NAME, bound to different types in the parent's and the child's module
+STRMOD_BINDINGS = [
+    ("Item", ("obj", "OA"), ("obj", "OA")),      # same resolution (harmless re-declaration)
+    ("Item", ("obj", "OA"), ("obj", "OB")),      # a subclass of the parent's Item
+    ("Item", ("obj", "OA"), ("obj", "OQ")),      # an unrelated Item with another required field
+    ("Item", ("obj", "OB"), ("obj", "OA")),      # wider
+    ("T", S_INT, S_INT), ("T", S_INT, S_STR), ("T", S_INT, S_BOOL), ("T", S_STR, S_STR),
+    ("T", ("ph", "NE"), ("ph", "Mime")), ("T", ("ph", "Mime"), ("ph", "NE")), ("T", ("ph", "Hash"), ("ph", "Hash")),
+    ("Kind", ("lit", ("a", "b")), ("lit", ("a",))), ("Kind", ("lit", ("a",)), ("lit", ("a", "b"))),
+    ("Kind", ("lit", ("a", "b")), ("lit", ("a", "b"))), ("Kind", ("lit", (1, 2)), ("lit", (True,))),
+]
+STRMOD_TEXTS = [("{n}", lambda d: d, None), ("List[{n}]", lambda d: ("list", d), "[]"),
+                ("Optional[{n}]", opt, "None"), ("Optional[List[{n}]]", lambda d: opt(("list", d)), "None"),
+                ("Set[{n}]", lambda d: ("set", d), None), ("Union[{n}, None]", opt, None)]
+
+
+def gen_strmod_cases(rng, start_idx) -> List[Dict[str, Any]]:
+    out = []
+    for name, tp, tc in STRMOD_BINDINGS:
+        for text, comp, default in STRMOD_TEXTS:
+            if "Set[" in text and not hashable_atom(tp):
+                continue
+            for dflt in ([None, default] if default else [None]):
+                ftp, ftc = comp(tp), comp(tc)
+                objects = []
+                for k in range(6):
+                    v = good_value(ftc if k % 3 else ftp, rng)
+                    if v is None and (dflt is None or dflt == "None") and rng.random() < 0.6:
+                        objects.append({})
+                    else:
+                        objects.append({"fld": v if v is not None or dflt in (None, "None") else []})
+                if dflt == "[]":
+                    objects = [o for o in objects if "fld" in o and o["fld"] is not None]
+                out.append({"idx": start_idx + len(out), "p_fields": [("fld", (False, ftp))], "p_extra": "allow",
+                            "p_consts": [], "c_own": [("fld", (False, ftc))], "c_declared": [], "c_newconsts": [],
+                            "c_extra_explicit": None, "c_extra": "allow", "c_unann": [], "c_nonfields": False,
+                            "objects": objects,
+                            "strmod": {"name": name, "text": text.format(n=name), "tp": tp, "tc": tc, "default": dflt}})
+    return out
+
+
 CONST_HINT_SX = ["F", ["union", [["any"], ["none"]]]]
 
 
@@ -1000,6 +1090,8 @@ def _spec_from_json(rep):
     s = dict(rep)
     s["p_fields"] = [(n, (a, tup(t))) for n, (a, t) in rep["p_fields"]]
     s["c_own"] = [(n, (a, tup(t))) for n, (a, t) in rep["c_own"]]
+    if rep.get("strmod"):
+        s["strmod"] = dict(rep["strmod"], tp=tup(rep["strmod"]["tp"]), tc=tup(rep["strmod"]["tc"]))
     return s
 
 
@@ -1167,6 +1259,9 @@ def run(ctx: vlib.Ctx):
     # ---- 3. classes + oracle B
     ncls = ctx.budget(400, 10000)
     specs = [gen_class_case(ctx.rng, k) for k in range(ncls)]
+    specs += gen_strmod_cases(ctx.rng, ncls)       # two-module string-annotation cases, same pipeline
+    n_strmod = len(specs) - ncls
+    ncls = len(specs)
     ccases = [class_case_sx(s, pt) for s in specs]
     mcls = vlib.run_model("c13", ccases)
     icls = vlib.pmap(w_class, specs, chunksize=8)
@@ -1211,7 +1306,11 @@ def run(ctx: vlib.Ctx):
                             f"a child schema passes class creation and check_types (declared overrides: {small_spec['c_declared']}), "
                             f"accepts {json.dumps(small_spec['objects'][0])}, and its parent rejects the serialised child instance: "
                             f"{lead} (parent extra={spec['p_extra']}, child constants={small_spec['c_newconsts']}, "
-                            f"un-annotated new fields={small_spec.get('c_unann', [])})",
+                            f"un-annotated new fields={small_spec.get('c_unann', [])})"
+                            + (f"; parent and child are in two modules with string annotations, both declare "
+                               f"`fld: {small_spec['strmod']['text']}`, `{small_spec['strmod']['name']}` is "
+                               f"{small_spec['strmod']['tp']} in the parent's module and {small_spec['strmod']['tc']} "
+                               f"in the child's" if small_spec.get("strmod") else ""),
                             {"kind": "class-oracle", "spec": _jsonable(small_spec)}, sig_obj=sig)
                 elif len(gaps) < 10:
                     gaps.append({"class_case": _jsonable(spec), "object": obj})
@@ -1323,6 +1422,12 @@ def run(ctx: vlib.Ctx):
         "chain_objects": n_ch_rows, "chain_objects_leaf_accepted": n_ch_leaf_acc,
         "chain_lengths": _hist(len(c["levels"]) for c in chains),
         "chain_plugin_patterns": _hist("".join("P" if L["plugin"] else "-" for L in c["levels"]) for c in chains),
+        "string_annotation_two_module_cases": n_strmod,
+        "string_annotation_cases_ok": sum(1 for sp, (st, got) in zip(specs, icls)
+                                          if sp.get("strmod") and st == "ok" and got["status"] == "ok"),
+        "string_annotation_cases_same_resolution_ok": sum(
+            1 for sp, (st, got) in zip(specs, icls)
+            if sp.get("strmod") and sp["strmod"]["tp"] == sp["strmod"]["tc"] and st == "ok" and got["status"] == "ok"),
         "classes_with_unannotated_new_field": sum(1 for sp in specs if sp["c_unann"]),
         "classes_with_unannotated_new_field_ok": sum(1 for sp, (st, got) in zip(specs, icls)
                                                      if sp["c_unann"] and st == "ok" and got["status"] == "ok"),
